@@ -2,6 +2,7 @@
 From Coq Require Import List NArith Arith.
 Import ListNotations.
 Require Tag Target TargetList.
+Require IntRead Gen_IntRead GenProofs_IntRead.
 Require Import Dec HashModel.
 
 (* tags: escaping then reading returns the tag for EVERY byte string, with any text after the closing bracket ... *)
@@ -35,3 +36,15 @@ Theorem C07_gate_name_hash_is_perfect : hash_table_ok = true.
 Proof. exact table_hash_perfect. Qed.
 Print Assumptions C07_tag_roundtrip. Print Assumptions C07_tag_output_bounded. Print Assumptions C07_target_roundtrip.
 Print Assumptions C07_gate_name_hash_is_perfect. Print Assumptions C07_target_list_roundtrip.
+
+(* the parsers' decimal readers, regenerated from source (accumulator width, limit, loop shape): no value wraps around modulo the
+   machine word before the limit test, so each reader is the unbounded loop of the parser model (limits 2^24, 2^60, 2^63). The
+   post-check shape with limit 2^63 in 64 bits would accept 2^64+1 as 1 (IntRead.post_check_u63_refuted). *)
+Theorem C07_decimal_readers_do_not_wrap : GenProofs_IntRead.intread_all_ok = true.
+Proof. exact GenProofs_IntRead.decimal_readers_do_not_wrap. Qed.
+Theorem C07_generated_reader_is_unbounded_loop :
+  GenProofs_IntRead.intread_all_ok = true ->
+  forall n w k pre, In (n, w, k, pre) Gen_IntRead.int_readers ->
+  forall s, (if pre then IntRead.pre_loop w (2 ^ k) s 0 else IntRead.post_loop w (2 ^ k) s 0)%N = DemTargets.read_lim_loop (2 ^ k)%N s 0%N.
+Proof. exact GenProofs_IntRead.generated_reader_is_unbounded_loop. Qed.
+Print Assumptions C07_decimal_readers_do_not_wrap. Print Assumptions C07_generated_reader_is_unbounded_loop.
